@@ -1,7 +1,7 @@
 (* Corr/C02Corr.v — case checkers for the C02 correspondence (Model/Bases.v and the
    specifications of Common/Ptm.v  vs  the implementation / Qiskit).  Depends on Model only. *)
 From Coq Require Import String List QArith Qabs.
-From CKT Require Import Common.Base Common.PolyRing Common.Ptm Model.Bases.
+From CKT Require Import Common.Base Common.PolyRing Common.Ptm Model.Bases Model.BasesDispatch.
 Import ListNotations.
 Close Scope Q_scope.
 Open Scope string_scope.
@@ -77,7 +77,7 @@ Definition basis_case : Type :=
 
 Definition chk_basis (k : basis_case) : bool :=
   let '(name, (isg, nq, pok, mok, hasp), (c, s), w, okak, e) := k in
-  match basis_of (mkG name isg nq pok mok hasp), e with
+  match res_map fst (qpd_model (mkG name isg nq pok mok hasp)), e with      (* through the registry dispatcher *)
   | Ok b, Ok (emaps, ecells, ecoef) =>
       okak &&
       list_beq (pair_beq Nat.eqb Nat.eqb) (canon_maps b) emaps &&
@@ -117,3 +117,11 @@ Definition chk_move_ptm (e : list (list Q)) : bool :=
 Definition chk_thetavec (k : list Q * list (Q * Q)) : bool :=
   let '(w, e) := k in
   list_chk cclose (map (cxeval (QenvCoef 1%Q 0%Q w)) u_from_thetavec) e.
+
+(* the parameterised gates' own matrices in the gate angle: (name, (cos(θ/2), sin(θ/2)), gate.to_matrix()) *)
+Definition chk_unitary_h (k : string * (Q * Q) * list (list (Q * Q))) : bool :=
+  let '(name, (c, s), e) := k in
+  match find (fun t => String.eqb (fst (fst t)) name) family_table_h with
+  | Some t => list_chk (list_chk cclose) (cmeval (QenvCoef c s []) (snd t)) e
+  | None => false
+  end.
